@@ -363,4 +363,24 @@ PROPS["C02"] = {
     "level_note": "No inductive proof of the walker against a spec semantics.",
 }
 
+PROPS["C12"] = {
+    "contracts": ["contracts/C12_ribosome.py"],
+    "level": "other",
+    "extra": [{"name": "C12/scan-clean[opacity as a taint contract over the pass sequence]", "kind": "scan", "cmd": ["python3-vt", "pyvc/scan_c12.py"]},
+              {"name": "C12/bounded[generated templates vs single-pass expansion]", "kind": "bounded", "tiers": ("quick",), "cmd": ["/venv/bin/python", "native/c12_bounded.py"]},
+              {"name": "C12/bounded[5000 templates]", "kind": "bounded", "tiers": ("thorough",), "timeout": 3000, "cmd": ["/venv/bin/python", "native/c12_bounded.py", "--thorough"]}],
+    "assumptions": ["conformance to the documented grammar depends on the matching semantics of `re` (leftmost, lazy, DOTALL), which SMT regular-language theories do not express: "
+                    "that half is a bounded stand-in against an independent single left-to-right expansion",
+                    "opacity is an ownership/taint contract over the pass sequence, derived from the source on every run: a scanner (re.sub/re.finditer/str.replace on the running text) may "
+                    "only see text into which no earlier step substituted a bound value, loop item, default or included rendering",
+                    "the nested replacement callbacks (closures) are analysed by the taint checker, not by the symbolic executor; their construct semantics are covered by the bounded stand-in",
+                    "in the translate contract the four passes are deterministic functions and get_required_variables is havocked"],
+    "trusted_base": ["forward taint analysis of pyvc/scan_c12.py (a value that is only truth-tested does not taint)", "the reference renderer of native/c12_bounded.py"],
+    "explanation": "Deductive part: translate composes the passes in the documented order, raises ValueError exactly for an unknown template or (strict) a missing required variable, counts errors, "
+                   "warns for missing variables otherwise. Taint contract: 11 scanner sites; 8 of them scan value text (recorded known finding). Bounded part: generated templates x contexts: "
+                   "delimiter-free values agree exactly with single-pass expansion; values containing constructs are re-interpreted (known finding).",
+    "level_text": "Taint contract + entry-point contract + bounded conformance; opacity is a known finding.",
+    "level_note": "regex semantics external; engine and z3 trusted.",
+}
+
 NOT_APPLICABLE = {}
